@@ -23,7 +23,7 @@ PROP = "C18"
 META = ["'", '"', "\\", "%", "_", "/", ";", "-", "*", "(", ")", "\n"]
 EXTRA = [" ", "a", "b", "x", "é", "日", ",", "ß"]
 FIXED = ["", "a", "it's", "''", "'", "a'b", "%", "_", "a%", "a_b", "/", "//", "/%", "50%/50", "a/b_c", "--", "-- x", "/* c */", "; DROP TABLE g; --",
-         "x' OR '1'='1", "\\", "\\'", "a\\b", "\n", "a\nb", '"', 'say "hi"', "é", "日本", "naïve ß", "(", ")", "a,b", " ", "  a  ", ":x", "see :ref", "$1", "?", "{0}", "%s"]
+         "x' OR '1'='1", "\\", "\\'", "a\\b", "\n", "a\nb", '"', 'say "hi"', "é", "日本", "naïve ß", "(", ")", "a,b", " ", "  a  ", ":x", "see :ref", "$1", "?", "{0}", "%s", "%(x)s", "100%(y)s off"]
 
 
 def lex(sql: str):
@@ -178,8 +178,8 @@ def value_stream():
     return diffs, n
 
 
-def skeleton_of(L, data):
-    obs = P.run_program(program(L, data), "sqlite_nodata", observe_cache=False)
+def skeleton_of(L, data, backend="sqlite_nodata"):
+    obs = P.run_program(program(L, data), backend, observe_cache=False)
     ex = obs[-1]
     if ex["outcome"] != "ok":
         return None, ex
@@ -203,6 +203,7 @@ def run(tier: str, seed: int) -> int:
     n_eval = 0
     ref_skel, _ = skeleton_of("q", data_for("q", rng))
     like_reqs = []
+    other_dialects = []
     for L in strings:
         if "\x00" in L:
             continue
@@ -233,6 +234,16 @@ def run(tier: str, seed: int) -> int:
             diffs.append(dict(kind="statement_structure_changed", literal=L, skeleton=skel[:12], reference=ref_skel[0][:12]))
         # O10: the literal and the LIKE patterns in the text are what the model renders
         like_reqs.append((L, strs, ex["frame"]["query"]))
+        # … the statements for PostgreSQL and SQL Server are not executed, but their LIKE patterns are the same escaped text
+        if L and "\\" not in L and "\n" not in L:
+            for dialect in ("postgres", "mssql"):
+                skd, exd = skeleton_of(L, data, dialect)
+                if skd is None:
+                    if exd.get("exc") not in ("NotSupportedError",):
+                        diffs.append(dict(kind="build_query_error", literal=L, dialect=dialect, exc=exd.get("exc"), msg=(exd.get("msg") or "")[:160]))
+                    continue
+                # (the PostgreSQL text is a pyformat string: a literal percent sign is doubled)
+                other_dialects.append((L, dialect, [x.replace("%%", "%") for x in skd[1]] if dialect == "postgres" else skd[1]))
     if po["build"]["ok"] and like_reqs:
         reqs = []
         for L, strs, q in like_reqs:
@@ -248,9 +259,43 @@ def run(tier: str, seed: int) -> int:
                 corr.append(dict(kind="like_pattern", literal=L, model_pattern=ma, string_tokens=strs[:12]))
             if L and L not in strs:
                 corr.append(dict(kind="literal_not_a_token", literal=L, string_tokens=strs[:12]))
+            for L2, dialect, dstrs in other_dialects:
+                if L2 == L and any(ch in L for ch in "%_/") and dstrs.count(ma) < strs.count(ma):
+                    # (every LIKE pattern of the SQLite statement - starts_with, ends_with, contains - has its escaped counterpart)
+                    diffs.append(dict(kind="like_pattern_not_escaped", literal=L, dialect=dialect, model_pattern=ma, string_tokens=dstrs[:14]))
     vd, n_val = value_stream()
     diffs += vd
     n_eval += n_val
+    # known findings of C18 are identified by the literal (a regular expression), the kind of deviation and the backend
+    findings = common.findings_for(PROP)
+    known_hits = {}
+    rest = []
+    for d in diffs:
+        owner = None
+        for f in findings:
+            for rule in f.get("c18_literal", []):
+                if re.search(rule["literal"], str(d.get("literal", ""))) and d["kind"] == rule["kind"] and d.get("backend", d.get("dialect")) in rule["backends"]:
+                    owner = f
+        if owner is not None:
+            known_hits.setdefault(owner["id"], []).append(d)
+        else:
+            rest.append(d)
+    corr_rest = []
+    for d in corr:
+        owner = None
+        for f in findings:
+            for rule in f.get("c18_literal", []):
+                if re.search(rule["literal"], str(d.get("literal", ""))) and d["kind"] in rule.get("rendering_kinds", []):
+                    owner = f
+        if owner is not None:
+            known_hits.setdefault(owner["id"], []).append(d)
+        else:
+            corr_rest.append(d)
+    corr = corr_rest
+    for f in findings:
+        if f["id"] in known_hits:
+            v.known_finding(f"{f['id']}: {f['summary']} ({len(known_hits[f['id']])} observations)")
+    diffs = rest
     groups = {}
     for d in diffs:
         groups.setdefault(d["kind"], []).append(d)
